@@ -114,6 +114,10 @@ def _optimize(
                             progress_bar,
                         )
                     )
+
+                # Raise if exception occurred in executing the remaining futures.
+                for f in wait(futures).done:
+                    f.result()
     finally:
         study._thread_local.in_optimize_loop = False
         progress_bar.close()
